@@ -258,8 +258,8 @@ func (c *Client) connect() error {
 			for {
 				val, err := stanza.NextPacket(c.transport.GetDecoder())
 				if err != nil {
-					c.ErrorHandler(err)
-					c.disconnected(state)
+					// The failed connection attempt is reported by the error connect() returns. A
+					// Disconnected event here would make a StreamManager start a second, nested retry loop.
 					return
 				}
 				switch val.(type) {
